@@ -365,6 +365,11 @@ pub(crate) fn extract_code_block_start(line: &str) -> Option<(&str, &str, &str)>
             if index < 3 {
                 return None;
             }
+            // what follows the backticks of a fence can not contain backticks, that
+            // is inline code at the start of a line: ```code``` and text
+            if line[index..].contains('`') {
+                return None;
+            }
             language_start = Some(index);
         }
     }
